@@ -56,6 +56,13 @@ def run(tier, seed):
     g = C.run_tlc("MC_Wrapper", "MC_Wrapper", workers=4, timeout=600)
     if not g.ok:
         raise C.ToolError("Wrapper model violates its protocol: %s\n%s" % (g.error, g.out[-1500:]))
+    # negative controls: four mutants of the machine must each violate the protocol (it is not vacuous)
+    controls = {}
+    for v in ("no_zod_guard", "raw_params", "settled_on_success_only", "swallow"):
+        n = C.run_tlc("MC_Wrapper", "MC_Wrapper_neg_" + v, workers=2, timeout=300)
+        controls[v] = (not n.ok) and "ProtocolHolds" in (n.error or n.out)
+        if not controls[v]:
+            raise C.ToolError("negative control %s was not rejected by Wrapper!Protocol" % v)
     cases = g.json_lines("REPLAY")
     if len(cases) < 974:
         raise C.ToolError("wrapper case generation incomplete: %d" % len(cases))
@@ -115,7 +122,7 @@ def run(tier, seed):
     os.makedirs(os.path.join(C.WORK, "extra"), exist_ok=True)
     with open(os.path.join(C.WORK, "extra", "X03.json"), "w") as f:
         json.dump({"check": "X03", "model_states": g.distinct, "calls": len(cases), "events_validated": n, "rejected": len(real),
-                   "unsupported": problems, "wall_s": round(time.time() - t0, 1)}, f, indent=1)
+                   "unsupported": problems, "negative_controls_rejected": sorted(controls), "wall_s": round(time.time() - t0, 1)}, f, indent=1)
     shutil.rmtree(d, ignore_errors=True)
     return 1 if (real or problems) else 0
 
